@@ -3,7 +3,7 @@ CONSTANTS
   MaxLeaves = 5
   MaxArity = 4
   UnaryUpTo = 4
-  Pats = {0, 1, 2}
+  Pats = {0, 1, 2, 3}
 INVARIANT L_Domain
 INVARIANT L_PathSums
 INVARIANT L_AsBinary
